@@ -96,7 +96,10 @@ def main():
         for c in checks:
             for tier in tiers:
                 t0 = time.time()
-                rc, out = sh([os.path.join(VERIF, "bin", "vcheck"), c, "--tier", tier, "--no-evidence"], cwd=VERIF, env={"VERIF_REPO": scratch}, timeout=7200)
+                # builds for the scratch copy go into a target directory of their own (removed below): artefacts of
+                # hundreds of patched copies would otherwise pile up in the shared cache
+                rc, out = sh([os.path.join(VERIF, "bin", "vcheck"), c, "--tier", tier, "--no-evidence"], cwd=VERIF,
+                             env={"VERIF_REPO": scratch, "VERIF_TARGET": scratch + "_vtarget"}, timeout=7200)
                 fired = rc == 1 and "VIOLATION property=" in out
                 lines = [l for l in out.splitlines() if l.startswith("  ") or "VIOLATION" in l or "INCONCLUSIVE" in l or " HELD " in l or " VIOLATED " in l]
                 result["checks"]["%s:%s" % (c, tier)] = {"rc": rc, "fired": fired, "wall_s": round(time.time() - t0, 1), "first": "\n".join(lines[:3])[:600]}
@@ -125,7 +128,7 @@ def main():
         return 0
     finally:
         tag = hashlib.sha1(scratch.encode()).hexdigest()[:8]
-        for d in (scratch, clean):
+        for d in (scratch, clean, scratch + "_vtarget"):
             shutil.rmtree(d, ignore_errors=True)
         for w in (os.path.join(VERIF, "work"),):
             for f in os.listdir(w) if os.path.isdir(w) else []:
